@@ -22,6 +22,9 @@ type Term struct {
 	Args  []*Term
 	V     ssa.Value
 	Call  ssa.CallInstruction // for Op=="call"
+	// Orig: when the term stands for the result of a call to a new helper (inter.go), the
+	// value inside the helper that is returned
+	Orig ssa.Value
 }
 
 type termBuilder struct {
@@ -30,6 +33,8 @@ type termBuilder struct {
 	// keepConv keeps integer conversions that change signedness or narrow
 	// the value as explicit "conv" nodes (E9 must not see through them)
 	keepConv bool
+	// new helpers whose results are being inlined (recursion guard)
+	inlining map[*ssa.Function]bool
 }
 
 func newTB() *termBuilder {
@@ -37,7 +42,29 @@ func newTB() *termBuilder {
 }
 
 // T builds the term of v (with a fresh builder).
-func T(v ssa.Value) *Term { return newTB().of(v, 0) }
+func T(v ssa.Value) *Term {
+	t := newTB().of(v, 0)
+	if f := valueFunc(v); f != nil && isNewHelper(f) {
+		return liftToKnownRoot(t, f, 0)
+	}
+	return t
+}
+
+// liftToKnownRoot expresses a term of a new helper in the vocabulary of the function that
+// calls it when there is exactly one call site (repeatedly, up to a known function);
+// otherwise the helper's parameters are marked as foreign.
+func liftToKnownRoot(t *Term, f *ssa.Function, depth int) *Term {
+	for isNewHelper(f) && depth < maxHelperDepth {
+		sites := callSitesOfHelper(f)
+		if len(sites) != 1 {
+			return markParams(t, FuncName(f))
+		}
+		t = substParams(t, argTerms(newTB(), sites[0]))
+		f = sites[0].Parent()
+		depth++
+	}
+	return t
+}
 
 const maxTermDepth = 14
 
@@ -54,6 +81,11 @@ func (b *termBuilder) of(v ssa.Value, depth int) *Term {
 	b.stack[v] = true
 	t := b.build(v, depth)
 	delete(b.stack, v)
+	if t.Orig != nil || (t.V != nil && t.V != v) {
+		// a term shared with another value (inlined helper result): do not re-label it
+		c := *t
+		t = &c
+	}
 	t.V = v
 	b.memo[v] = t
 	return t
@@ -139,6 +171,9 @@ func (b *termBuilder) build(v ssa.Value, d int) *Term {
 	case *ssa.BinOp:
 		return &Term{Op: "binop", Sym: x.Op.String(), Args: []*Term{b.of(x.X, d+1), b.of(x.Y, d+1)}}
 	case *ssa.Call:
+		if it := b.inlineCallTerm(x, d); it != nil {
+			return it
+		}
 		t := &Term{Op: "call", Sym: CalleeName(x.Common()), Call: x}
 		if x.Common().IsInvoke() {
 			t.Args = append(t.Args, b.of(x.Common().Value, d+1))
@@ -148,6 +183,9 @@ func (b *termBuilder) build(v ssa.Value, d int) *Term {
 		}
 		return t
 	case *ssa.Extract:
+		if tt := b.of(x.Tuple, d+1); tt.Op == "tuple" && x.Index < len(tt.Args) {
+			return tt.Args[x.Index]
+		}
 		return &Term{Op: "extract", Sym: fmt.Sprintf("#%d", x.Index), Args: []*Term{b.of(x.Tuple, d+1)}}
 	case *ssa.Phi:
 		t := &Term{Op: "phi"}
@@ -894,6 +932,9 @@ func (f Fact) Entails(c CmpSpec) bool {
 	if k == -1 { // −A + B REL d  ⇔  A − B flip(REL) −d
 		rel, d = flipRel(rel), -d
 	}
+	if c.NoB {
+		rel, d = lenNonNeg(l.Atom[aKey], rel, d)
+	}
 	switch c.Rel {
 	case GE:
 		return (rel == GE && d >= c.D) || (rel == EQ && d >= c.D)
@@ -905,4 +946,110 @@ func (f Fact) Entails(c CmpSpec) bool {
 		return (rel == NE && d == c.D) || (rel == GE && d > c.D) || (rel == LE && d < c.D)
 	}
 	return false
+}
+
+// normIter rewrites the two ways go/ssa spells "the current index of a loop over a
+// collection" — range loops count φ(-1, ·)+1, index loops φ(0, ·+1) — into one symbol, so
+// that expressions can be compared across a range loop and an index loop.
+func normIter(s string) string {
+	s = strings.ReplaceAll(s, "(phi(-1, other:…) + 1)", "ι")
+	s = strings.ReplaceAll(s, "phi(0, (other:… + 1))", "ι")
+	return s
+}
+
+// lenNonNeg sharpens a relation on a single len()/cap() atom with what is always true of
+// it (>= 0):  len != 0  is  len >= 1,  len <= 0  is  len == 0.
+func lenNonNeg(atom *Term, rel Rel, d int64) (Rel, int64) {
+	if atom == nil || atom.Op != "call" || (atom.Sym != "builtin:len" && atom.Sym != "builtin:cap") {
+		return rel, d
+	}
+	switch {
+	case rel == NE && d == 0:
+		return GE, 1
+	case rel == LE && d == 0:
+		return EQ, 0
+	}
+	return rel, d
+}
+
+// canonCmp brings an integer comparison fact into the form  Σ cᵢ·atomᵢ REL d  with a
+// sign-normalised left side; ok is false for non-integer comparisons.
+func canonCmp(f Fact) (key string, rel Rel, d int64, ok bool) {
+	if !f.IsCmp {
+		return "", 0, 0, false
+	}
+	l := newLin()
+	l.add(linOf(f.L), 1)
+	l.add(linOf(f.R), -1)
+	if !l.OK || len(l.Coef) == 0 {
+		return "", 0, 0, false
+	}
+	rel, d, ok = canonRel(f.Op, l.Const)
+	if !ok {
+		return "", 0, 0, false
+	}
+	var keys []string
+	for k := range l.Coef {
+		keys = append(keys, k)
+	}
+	sort.Strings(keys)
+	if l.Coef[keys[0]] < 0 {
+		for _, k := range keys {
+			l.Coef[k] = -l.Coef[k]
+		}
+		rel, d = flipRel(rel), -d
+	}
+	var parts []string
+	for _, k := range keys {
+		parts = append(parts, fmt.Sprintf("%+d·%s", l.Coef[k], normIter(k)))
+	}
+	if len(keys) == 1 && l.Coef[keys[0]] == 1 {
+		rel, d = lenNonNeg(l.Atom[keys[0]], rel, d)
+	}
+	return strings.Join(parts, " "), rel, d, true
+}
+
+// factImplies: whenever a holds, b holds (same linear left side, interval reasoning;
+// otherwise syntactic equality up to operand order and loop-index spelling).
+func factImplies(a, b Fact) bool {
+	if a.IsCmp != b.IsCmp {
+		return false
+	}
+	if !a.IsCmp {
+		return a.Truth == b.Truth && normIter(a.B.String()) == normIter(b.B.String())
+	}
+	ka, ra, da, oka := canonCmp(a)
+	kb, rb, db, okb := canonCmp(b)
+	if oka && okb && ka == kb {
+		switch ra {
+		case GE:
+			return (rb == GE && da >= db) || (rb == NE && db < da)
+		case LE:
+			return (rb == LE && da <= db) || (rb == NE && db > da)
+		case EQ:
+			return (rb == GE && da >= db) || (rb == LE && da <= db) || (rb == EQ && da == db) || (rb == NE && da != db)
+		case NE:
+			return rb == NE && da == db
+		}
+		return false
+	}
+	if normIter(a.String()) == normIter(b.String()) {
+		return true
+	}
+	if m, ok := b.Mirror(); ok && normIter(a.String()) == normIter(m.String()) {
+		return true
+	}
+	return false
+}
+
+// valueOrigin: the value itself, or — when it is the result of a call to a new helper — the
+// value the helper returns for it (conversions stripped).
+func valueOrigin(v ssa.Value) ssa.Value {
+	if v == nil {
+		return nil
+	}
+	if t := T(v); t != nil && t.Orig != nil {
+		return stripConv(t.Orig)
+	}
+	return stripConv(v)
 }
